@@ -4,10 +4,12 @@
 package wv
 
 import (
+	"bytes"
 	"encoding/json"
 	"fmt"
 	"math/big"
 	"os"
+	"path/filepath"
 	"reflect"
 	"regexp"
 	"strings"
@@ -18,6 +20,7 @@ import (
 	"verif/ref"
 
 	"github.com/consensys/gnark/frontend"
+	"github.com/wormhole-foundation/example-near-light-client/cmd"
 	"github.com/wormhole-foundation/example-near-light-client/types"
 	"github.com/wormhole-foundation/example-near-light-client/variables"
 	"github.com/wormhole-foundation/example-near-light-client/verifier"
@@ -225,15 +228,48 @@ func (in *Inst) SelectedCapSlots() [16]int {
 	return sel
 }
 
-// FixedTemplate builds the 4-input wrapper circuit the way cmd/compile.go builds it from the
-// files of a template instance.
-func (in *Inst) FixedTemplate() *verifier.CircuitFixed {
-	pw, _ := variables.DeserializeProofWithPublicInputs(in.Raw)
-	vd := variables.DeserializeVerifierOnlyCircuitData(in.VRaw)
-	return &verifier.CircuitFixed{
-		ProofWithPis:      pw,
-		PublicInputs:      [4]frontend.Variable{new(frontend.Variable), new(frontend.Variable), new(frontend.Variable), new(frontend.Variable)},
-		VerifierData:      vd,
-		CommonCircuitData: in.CD,
+// writeFiles materialises the (possibly k-restricted) instance as the three files the
+// repository's compile paths read, in a fresh directory; the caller removes it.
+func (in *Inst) writeFiles() string {
+	dir, err := os.MkdirTemp(os.Getenv("VERIF_OUT"), "inst-")
+	must(err)
+	gen := func(file string) map[string]any {
+		d := json.NewDecoder(bytes.NewReader(readFile(corp.Path(in.Base, file))))
+		d.UseNumber()
+		var m map[string]any
+		must(d.Decode(&m))
+		return m
 	}
+	p := gen("proof.json")
+	op := p["proof"].(map[string]any)["opening_proof"].(map[string]any)
+	op["query_round_proofs"] = op["query_round_proofs"].([]any)[:in.K]
+	c := gen("common_data.json")
+	k := json.Number(fmt.Sprint(in.K))
+	c["config"].(map[string]any)["fri_config"].(map[string]any)["num_query_rounds"] = k
+	c["fri_params"].(map[string]any)["config"].(map[string]any)["num_query_rounds"] = k
+	write := func(name string, v any) {
+		b, err := json.Marshal(v)
+		must(err)
+		must(os.WriteFile(filepath.Join(dir, name), b, 0o644))
+	}
+	write("proof_with_public_inputs.json", p)
+	write("common_circuit_data.json", c)
+	must(os.WriteFile(filepath.Join(dir, "verifier_only_circuit_data.json"), readFile(corp.Path(in.Base, "verifier_data.json")), 0o644))
+	return dir
+}
+
+// FixedTemplate builds the 4-input wrapper circuit through the constructor cmd/compile.go uses.
+func (in *Inst) FixedTemplate() *verifier.CircuitFixed {
+	dir := in.writeFiles()
+	defer os.RemoveAll(dir)
+	c := cmd.VerifNewFixedCircuit(dir)
+	return &c
+}
+
+// PlainTemplate builds the VerifierCircuit through the constructor verifier.CompileVerifierCircuit uses.
+func (in *Inst) PlainTemplate() *verifier.VerifierCircuit {
+	dir := in.writeFiles()
+	defer os.RemoveAll(dir)
+	c := verifier.VerifNewVerifierCircuit(dir)
+	return &c
 }
